@@ -35,6 +35,10 @@ def explore_avps(chk, g, n, tag):
         o, toks = g.tree(depth)
         objs.append(o)
         lines.append("enc " + " ".join(toks))
+    if g.mutate_grouped:
+        for o, toks in nested_duplicate_cases(g, max(20, n // 20)):
+            objs.append(o)
+            lines.append("enc " + " ".join(toks))
     out = core.run_driver(lines)
     for o, line, res in zip(objs, lines, out):
         f = dict(p.split("=", 1) for p in res.split(" "))
@@ -46,6 +50,47 @@ def explore_avps(chk, g, n, tag):
             chk.corr_break("avp-dump", inp, impl, f["model"])
         if f["spec"] != "none" and impl != f["spec"]:
             chk.violation("AVP dump is not the RFC 6733 encoding of its content", inp, f["spec"], impl)
+
+
+def nested_duplicate_cases(g, n):
+    """a Grouped AVP holding [N([x, y]), x', z] with x' equal-valued to the nested x; then x' (or z, or N) is popped /
+    re-appended: the data must stay the concatenation of the remaining members' encodings"""
+    r = g.rng
+    out = []
+    free = [c for c in g.grouped_names if not g.classes[c].mandatory]
+    for _ in range(n):
+        outer, inner = g.classes[r.choice(free)], g.classes[r.choice(free)]
+        lname = r.choice(g.leaf_names)
+        row = g.rows[lname]
+        val, vt = g.value(row)
+        mk = lambda: bromgen.construct(lambda: g.classes[lname](val))
+        x, x2 = mk(), mk()
+        y, yt = g.leaf()
+        z, zt = g.leaf()
+        if any(isinstance(o, bromgen.Failed) for o in (x, x2, y, z)):
+            continue
+        xt = ["D", lname, "-"] + vt
+        n_obj = bromgen.construct(lambda: inner([x, y]))
+        nt = ["G", inner.__name__, "-", "2"] + xt + yt
+        members = [(n_obj, nt), (x2, xt), (z, zt)]
+        r.shuffle(members) if r.random() < 0.3 else None
+        o = bromgen.construct(lambda: outer([m[0] for m in members]))
+        if isinstance(o, bromgen.Failed) or isinstance(n_obj, bromgen.Failed):
+            continue
+        which = r.choice([x2, x2, z, n_obj])
+        key = [k for k, v in o.__dict__.items() if v is which and "_avp" in k and k != "_avps"]
+        if not key:
+            continue
+        o.pop(key[0])
+        members = [m for m in members if m[0] is not which]
+        if r.random() < 0.3:
+            e, et = g.leaf()
+            if not isinstance(e, bromgen.Failed):
+                o.append(e)
+                members.append((e, et))
+        toks = ["G", outer.__name__, "-", str(len(members))] + [t for m in members for t in m[1]]
+        out.append((o, toks))
+    return out
 
 
 def build_message(g, how, hf, kids):
@@ -113,9 +158,10 @@ def run(chk):
     changed, rows = gen_dict.generate()
     chk.lean = core.lean_build(["BromeliaVerif.Properties.C01"])
     g = bromgen.Gen(rng)
+    g.mutate_grouped = True
     chk.rule = ("content trees built through the public API from the repo's own dictionary (every class reachable, values per "
                 "data-type kind with boundary values and every length residue, Grouped members from the class's own tables, "
-                "nesting depth up to 4, repeated members, generic AVPs with/without vendor, M/P flag overrides) and messages "
+                "nesting depth up to 4, repeated members, container operations pop/append/extend/avps-setter applied to built Grouped AVPs, AVP lengths across 2^16, generic AVPs with/without vendor, M/P flag overrides) and messages "
                 "with boundary/random header fields built by append / constructor list / extend / avps setter; a case is the "
                 "descriptor line sent to the Lean driver; distinct = distinct descriptor lines.")
     chk.trusted += ["correspondence harness props/c01.py + generators harness/bromgen.py", "CPython bytes/struct/str.encode('utf-8')",
